@@ -21,7 +21,7 @@ TASKS_PER_CHILD = 4
 
 N = TStruct("n_t", (TField("a", INTS["uint8"]), TField("b", INTS["uint16"])))
 AN = TStruct("__anon_c14", (TField("ax", INTS["uint8"]), TField("ay", TArr(INTS["uint16"], 2))))
-U = TStruct("u_t", (TField("w", INTS["uint16"]), TField("raw", TArr(INTS["uint8"], 2))), union=True)
+U = TStruct("u_t", (TField("lo", INTS["uint8"]), TField("w", INTS["uint16"]), TField("raw", TArr(INTS["uint8"], 2))), union=True)  # smallest member first
 S1 = TStruct("S1", (
     TField("a", INTS["uint8"]), TField("arr", TArr(INTS["uint16"], 2)), TField("n", N), TField("ns", TArr(N, 2)), TField("c", TArr(CHAR, 2)),
     TField("w", TArr(WCHAR, 2)), TField("b1", INTS["uint16"], 4), TField("b2", INTS["uint16"], 12), TField("u", U), TField("m", TArr(TArr(INTS["uint8"], 2), 2)),
@@ -170,7 +170,7 @@ def op_mut_union(j):
         ci, tn, obj, v = w.inst[j]
         obj.u.w = 0x0102
         raw = (0x0102).to_bytes(2, w.cfg(ci).bo)
-        v["u"] = {"w": 0x0102, "raw": list(raw)}
+        v["u"] = {"lo": raw[0], "w": 0x0102, "raw": list(raw)}
     return (f"x.u.w=0x0102(#{j})", run, lambda w: len(w.inst) > j and w.inst[j][1] == "S1")
 
 
@@ -264,6 +264,19 @@ def check_invariant(w: World, hist, res: JobResult):
                     bad.append(("parse:impure", f"{tn} of cs{ci} (endian {cfg.endian}) parses {data.hex()} as {p}@{st.tell()}, a fresh cstruct gives {exp}@{end}"))
             except Exception as e:  # noqa: BLE001
                 bad.append(("parse:impure-raises", f"{tn} of cs{ci}: {impl.exc_sig(e)} {e!r}"))
+        # the description of every type is what was declared, whatever was parsed, dumped or constructed before
+        for tname_, mt in (("S1", S1), ("S2", S2), ("n_t", N), ("u_t", U)):
+            T = getattr(w.cs[ci], tname_)
+            want = [f.name for f in mt.fields if f.name is not None]
+            got_f = [f._name for f in T.__fields__ if not getattr(f.type, "__anonymous__", False) or f._name in want]
+            if got_f != want or [k for k in T.fields if k in want][: len(want)] != [k for k in want if k in T.fields]:
+                bad.append(("type:description", f"cs{ci}.{tname_}: field order is now {[f._name for f in T.__fields__]}, declared {want}"))
+        try:
+            pu = w.cs[ci].u_t(0x55)
+            if (int(pu.lo), pu.dumps()[:1]) != (0x55, b"\x55"):
+                bad.append(("type:description", f"cs{ci}.u_t(0x55) (first declared member lo) gives {impl.norm(pu)}, dumps {pu.dumps().hex()}"))
+        except Exception as e:  # noqa: BLE001
+            bad.append(("type:description", f"cs{ci}.u_t(0x55): {impl.exc_sig(e)} {e!r}"))
         if "alias_t" in w.extra[ci]:
             tgt, tsz = ALIAS_TARGET[ci]
             try:
